@@ -37,6 +37,7 @@ var ErrEncVerification = errors.New("verification of encrypted share failed")
 var ErrDecVerification = errors.New("verification of decrypted share failed")
 var ErrGlobalChallengeVerification = errors.New("failed to verify global challenge")
 var ErrDecShareChallengeVerification = errors.New("failed to verify the share decryption challenge")
+var ErrDecShareIndex = errors.New("index of decrypted share differs from index of encrypted share")
 
 // PubVerShare is a public verifiable share.
 type PubVerShare struct {
@@ -246,6 +247,13 @@ func DecShareBatch(
 // VerifyDecShare checks that the decrypted share sG satisfies
 // log_{G}(X) == log_{sG}(sX). Note that X = xG and sX = s(xG) = x(sG).
 func VerifyDecShare(suite Suite, G, X kyber.Point, encShare *PubVerShare, decShare *PubVerShare) error {
+	// The index is not covered by the proof: it must be the one of the
+	// encrypted share (which is bound to the commitment polynomial through sH),
+	// otherwise a relabelled share would be interpolated at the wrong position.
+	if decShare.S.I != encShare.S.I {
+		return fmt.Errorf("didn't verify: %w", ErrDecShareIndex)
+	}
+
 	// Compute challenge for the decShare
 	h := suite.Hash()
 	var err error
